@@ -412,7 +412,7 @@ func (w *c16World) genCase(c *Ctx, g *c16Gen, iter int) *c16Case {
 	gases := []uint64{0, uint64(r.Intn(200)), uint64(r.Intn(3000)), uint64(2000 + r.Intn(30000)), 100000, 300000, 1000000, 5000000}
 	cs.Gas = gases[r.Intn(len(gases))]
 	cs.Value = []uint64{0, 0, 0, 1, 77, 1 << 62}[r.Intn(6)]
-	n := r.Intn(16)
+	n := r.Intn(19)
 	if r.Intn(3) == 0 {
 		cs.input = make([]byte, r.Intn(100))
 		r.Read(cs.input)
@@ -486,6 +486,50 @@ func (w *c16World) genCase(c *Ctx, g *c16Gen, iter int) *c16Case {
 		cs.codes[w.slots[0]] = g.selfRecursive(op, w.slots[0], r.Intn(2) == 0)
 		cs.Gas = 1 << 52
 		cs.Value = 0
+	case n == 16:
+		// an executed jump in a code ending with PUSHn (+ t immediate bytes), every length mod 8: the lazily built
+		// jump-destination bitmap is built inside opJump / opJumpi. Half of the time the code is reached through a
+		// nested call of any kind first (the callee's analysis lands in the caller's destinations map).
+		cs.Kind = "jump-tail"
+		pn := 1 + r.Intn(32)
+		if r.Intn(3) == 0 {
+			pn = 32
+		}
+		pt := 0
+		if r.Intn(3) == 0 {
+			pt = r.Intn(pn + 1)
+		}
+		if r.Intn(2) == 0 {
+			cs.codes[w.slots[0]] = g.jumpTail(pn, pt, r.Intn(8), r.Intn(7))
+		} else {
+			cs.codes[w.slots[1]] = g.jumpTail(pn, pt, r.Intn(8), r.Intn(7))
+			a := &asm{}
+			g.callStmt(a, c16CallOps[r.Intn(len(c16CallOps))], w.slots[1], big.NewInt(200000), 0, r.Intn(4))
+			cs.codes[w.slots[0]] = g.jumpTailInto(a, 1+r.Intn(32), 0, r.Intn(8), r.Intn(7))
+		}
+		if r.Intn(4) == 0 {
+			// the same bytes as init code (Create keys the map by keccak(code))
+			cs.Entry = "create"
+			cs.input = cs.codes[w.slots[0]]
+		}
+		cs.Gas = []uint64{100000, 1000000, uint64(r.Intn(300))}[r.Intn(3)]
+	case n == 17 || n == 18:
+		code, input, callee, kind := g.boundary(r.Intn(8))
+		cs.Kind = "boundary:" + kind
+		cs.codes[w.slots[0]] = code
+		if callee != nil {
+			cs.codes[w.slots[1]] = callee
+		}
+		cs.input = input
+		cs.Gas = []uint64{1000000, 1000000, 100000, uint64(r.Intn(4000))}[r.Intn(4)]
+		if kind == "stack-limit" {
+			cs.Gas = 1000000
+			cs.maxTrace = 1100
+		}
+		if r.Intn(5) == 0 {
+			cs.Entry = "create"
+			cs.input = code
+		}
 	default:
 		cs.Kind = "nested"
 		for i := len(w.slots) - 1; i >= 0; i-- {
@@ -598,6 +642,8 @@ func c16(c *Ctx) {
 
 	// the opcode table as the code derives it (+ baked-table regeneration when asked)
 	c16EmitTable(c, w)
+	// jump-destination analysis, getData, Memory: the real functions against LemoModel.JumpAnalysis
+	c16JumpPhase(c, w)
 	// length-driven precompiles, executed in a memory-capped child process
 	g.adv = c16PrePhase(c, w) // adversarial memory operands also in the in-process generator, but only if the child found them harmless
 	w.longBudget = 12
@@ -712,6 +758,47 @@ func (w *c16World) fixedCases(g *c16Gen) []*c16Case {
 			}
 			ac.assetTx = []byte(fmt.Sprintf(`{"assetId":"%s","transferAmount":"%s","input":""}`, code.Hex(), amt))
 			out = append(out, ac)
+		}
+	}
+	// every PUSHn as the last opcode of a code of every length mod 8, reached by an executed jump (the bitmap is built
+	// inside opJump / opJumpi); PUSH32 as the very last byte with every variant at every residue; the same as init code
+	for n := 1; n <= 32; n++ {
+		for res := 0; res < 8; res++ {
+			t := 0
+			if (n+res)%3 == 0 {
+				t = n / 2
+			}
+			out = append(out, mk("fixed:jump-tail", "call", 100000, 0, map[common.Address][]byte{w.slots[0]: g.jumpTail(n, t, res, (n+res)%7)}))
+		}
+	}
+	for res := 0; res < 8; res++ {
+		for v := 0; v < 7; v++ {
+			out = append(out, mk("fixed:jump-tail-push32-last", "call", 100000, 0, map[common.Address][]byte{w.slots[0]: g.jumpTail(32, 0, res, v)}))
+		}
+		ic := mk("fixed:jump-tail-initcode", "create", 200000, 0, nil)
+		ic.input = g.jumpTail(32, 0, res, res%7)
+		out = append(out, ic)
+		sc := mk("fixed:jump-tail-static", "static", 100000, 0, map[common.Address][]byte{w.slots[0]: g.jumpTail(32, 0, res, 1)})
+		out = append(out, sc)
+	}
+	// the 8-byte witness of the allocation slack (PUSH1 3 JUMP JUMPDEST STOP STOP STOP PUSH32)
+	out = append(out, mk("fixed:jump-tail-witness", "call", 100000, 0, map[common.Address][]byte{w.slots[0]: {0x60, 0x03, 0x56, 0x5b, 0x00, 0x00, 0x00, 0x7f}}))
+	// interpreter index arithmetic at its boundaries: four programs of every sub-family
+	for which := 0; which < 8; which++ {
+		for k := 0; k < 4; k++ {
+			code, input, callee, kind := g.boundary(which)
+			bc := mk("fixed:boundary:"+kind, "call", 1000000, 0, map[common.Address][]byte{w.slots[0]: code})
+			if callee != nil {
+				bc.codes[w.slots[1]] = callee
+			}
+			bc.input = input
+			if kind == "stack-limit" {
+				if k > 0 {
+					continue
+				}
+				bc.maxTrace = 1100
+			}
+			out = append(out, bc)
 		}
 	}
 	// depth limit
